@@ -113,6 +113,12 @@ func (b *obsBridge) guard(method string, onPanic func()) {
 	}
 }
 
+func (b *obsBridge) panicCount() int {
+	b.mu.Lock()
+	defer b.mu.Unlock()
+	return len(b.pan)
+}
+
 func (b *obsBridge) takePanics() []bridgePanic {
 	b.mu.Lock()
 	defer b.mu.Unlock()
